@@ -103,7 +103,7 @@ theorem timerFire_alive {w : Wiring} {s s' : AState} {l : Label} (hs : step w s 
       refine ⟨x, rfl, ?_⟩
       intro hd
       simp only [hf, timerDue] at hs
-      rcases hd with hd | hd <;> simp [hd] at hs
+      rcases hd with hd | hd | hd <;> simp [hd] at hs
   · simp only [step, stepTimerArm] at hs
     cases hf : s.findTimer t with
     | none => simp [hf] at hs
@@ -111,7 +111,7 @@ theorem timerFire_alive {w : Wiring} {s s' : AState} {l : Label} (hs : step w s 
       refine ⟨x, rfl, ?_⟩
       intro hd
       simp only [hf] at hs
-      rcases hd with hd | hd <;> simp [hd] at hs <;> (split at hs <;> simp at hs)
+      rcases hd with hd | hd | hd <;> simp [hd] at hs <;> (split at hs <;> simp at hs)
 
 theorem cbBeginStarted_gap {w : Wiring} {s s' : AState} (hs : step w s (.cbBegin .started) = some s') :
     inGap s.phase = true ∧ s'.timers = s.timers := by
